@@ -10,7 +10,7 @@ ID = "C18"
 HEAVY = False
 BUDGET_S = {"quick": 200, "thorough": 2400}
 MAX_TASK_S = {"quick": 120, "thorough": 1500}
-MAX_DEPTH = 4000
+MAX_DEPTH = 20000
 W = 16
 ASSUMPTIONS = [
     "coalition ids are z3 bit-vectors of width 16 (ids < 2^16); loop-free operators are decided for ALL id pairs at once",
@@ -36,6 +36,10 @@ def tasks(tier, seed):
         out.append({"key": f"inverted/n{n}", "kind": "inverted", "n": n})
     for n in range(1, (8 if tier == "thorough" else 6) + 1):
         out.append({"key": f"single/n{n}", "kind": "single", "n": n})
+    # large coalitions of larger games (the ids are restricted to coalitions that miss at most one player: n+1 paths): sizes of 8 and
+    # more members, ids beyond one byte
+    for n in (8,) if tier == "quick" else (8, 9, 10):
+        out.append({"key": f"single/n{n}/large", "kind": "single", "n": n, "large": True})
     for n in range(2, (4 if tier == "thorough" else 3) + 1):
         for pred in ("is_superadditive", "is_monotone_decreasing", "is_sam", "check_supermodularity"):
             out.append({"key": f"predicate/{pred}/n{n}", "kind": "predicate", "pred": pred, "n": n, "canary": n == 2})
@@ -51,6 +55,9 @@ def setup(params, inp, lg):
         inp.bv("a", W)
     elif k in ("inverted", "single"):
         a = inp.bv("a", W)
+        if params.get("large"):
+            full = 2 ** params["n"] - 1
+            return [lg.Or([a == full] + [a == (full & ~(1 << i)) for i in range(params["n"])])]
         return [a < 2 ** params["n"]]
     elif k == "predicate":
         for S in range(1, 2 ** params["n"]):
